@@ -80,6 +80,10 @@ _load_builtin = Contract(
         {'unsafe': False, 'base': ['/env/lib'], 'full': ['/proj'], 'names': ['a', 'b'],
          'sys_path': ['/proj', '/env/lib', '/tmp/x/site-packages', '']},
         {'unsafe': True, 'base': ['/env/lib'], 'full': ['/proj'], 'names': ['m'], 'sys_path': ['/proj']},
+        # nothing in common with the environment's sys.path (fixed sys path of a relative import, explicit sys_path)
+        {'unsafe': False, 'base': ['/env/lib'], 'full': ['/env/lib', '/proj'], 'names': ['gi'], 'sys_path': ['/proj']},
+        {'unsafe': False, 'base': ['/env/lib'], 'full': ['/proj', '/proj/src'], 'names': ['gi'], 'sys_path': None},
+        {'unsafe': False, 'base': [], 'full': ['/proj'], 'names': ['gi'], 'sys_path': None},
     ],
 )
 
